@@ -140,6 +140,7 @@ func runMoney(w *mc.Worker, id string) {
 		stage("send-w2", "source+destination trees of joint weight <= 2, depth <= 1; balances {0,1,3,-2}^2; amounts {0,1,2,4,7}", 2, 1, 1, balQ, amtQ)
 		seq("seq-L2", "all statement sequences of length <= 2 over the 28-statement alphabet (<= 1 deviation statement) x sheets a in {0,1,3,6,-2}, b in {0,2,-2}, x in {0,2}", 2, 1, sheetsQ)
 		stage("send-w3", "source+destination trees of joint weight <= 3, depth <= 2; balances {0,1,3,-2}^2; amounts {0,1,2,4,7}", 3, 2, 2, balQ, amtQ)
+		seq("seq-L3", "all statement sequences of length <= 3 over the 28-statement alphabet (<= 1 deviation statement) x sheets a in {0,1,3,6,-2}, b in {0,2,-2}, x in {0,2}", 3, 1, sheetsQ)
 	} else {
 		stage("send-w3", "source+destination trees of joint weight <= 3, depth <= 2; balances {0,1,3,-2,H}^2; amounts {0,1,2,4,7,H}", 3, 2, 2, append(balQ, H), append(amtQ, H))
 		seq("seq-L3", "all statement sequences of length <= 3 over the 28-statement alphabet (<= 2 deviation statements) x sheets a in {0,1,3,6,-2,H}, b in {0,2,-2}, x in {0,2}, a/EUR in {0,3}", 3, 2, sheetsT)
